@@ -24,6 +24,9 @@ type chanState struct {
 	slotFull bool
 	slotVal  any
 	taken    *bool
+	// number of threads currently blocked in a plain receive on this channel
+	// (makes a select send case on an unbuffered channel decidable)
+	recvWaiting int
 }
 
 func chanKey(c any) uintptr {
@@ -158,10 +161,14 @@ func Recv2[T any](c <-chan T) (T, bool) {
 		return v, ok
 	}
 	st := state(c, cap(c))
+	if st != nil {
+		st.recvWaiting++
+	}
 	pointObj("recv", chanKey(c), st.canRecv)
 	if s.teardown {
 		return zero, false
 	}
+	st.recvWaiting--
 	v, ok := st.doRecv()
 	if !ok {
 		return zero, false
@@ -276,17 +283,26 @@ func SendCase[T any](c chan<- T, v T) *SCase[T] {
 	sc := &SCase[T]{c: c, v: v}
 	if Active() {
 		sc.st = state(c, cap(c))
-		if sc.st != nil && sc.st.cap == 0 {
-			panic("vsched: select with a send case on an unbuffered channel is not modelled")
-		}
 	}
 	return sc
 }
 
-func (sc *SCase[T]) ready() bool { return sc.st.canSend() }
+func (sc *SCase[T]) ready() bool {
+	if sc.st != nil && sc.st.cap == 0 && !sc.st.closed {
+		// rendezvous: ready only if a receiver is blocked on the channel
+		return sc.st.recvWaiting > 0 && !sc.st.slotFull
+	}
+	return sc.st.canSend()
+}
 func (sc *SCase[T]) exec() {
 	if sc.st.closed {
 		panic("send on closed channel")
+	}
+	if sc.st.cap == 0 {
+		// hand the value to the waiting receiver; it is enabled from now on
+		taken := false
+		sc.st.slotFull, sc.st.slotVal, sc.st.taken = true, sc.v, &taken
+		return
 	}
 	sc.st.buf = append(sc.st.buf, sc.v)
 }
